@@ -1,6 +1,137 @@
-import HranoModel.Model.Options
-import HranoModel.Model.Sink
-import HranoModel.Model.Chan
-/-! C04 property theorems (statements only in this file; helper lemmas live in Lemmas/) -/
+import HranoModel.Lemmas.Classify
+import HranoModel.Lemmas.Parse
+/-!
+C04 — well-formed files parse to exactly their records, entries and values.
+
+Property theorems only (helper lemmas: `Lemmas/Trim.lean`, `Lemmas/Classify.lean`).  The documented format
+with its layout freedom is the data type `Doc.File` (`Spec/Doc.lean`): comment lines, blank / separator
+lines, records made of a heading (optionally quoted, optionally followed by a colon and blanks) and body
+lines — entries (indentation by blanks, tabs or YAML dashes; optional quotes; optional colon; one or more
+blanks or tabs; the literal; trailing blanks), notes, comments, blank lines.  Well-formedness (`WF`) says
+names do not start or end with a byte the tokenizer trims (nor with the comment character) and literals
+are accepted by the number grammar (`Num.parseFloat lit = .value v`), contain no blank and do not start or
+end with a trimmed byte.  "Correctly rounded" is `strconv.ParseFloat`'s contract (trusted); here values are
+the exact rationals of the literals.  The side conditions on the trim sets are discharged by `decide` on the
+constants of `Facts.lean`, so they are re-checked whenever the source changes.
+-/
 namespace Hrano.C04
+open Hrano Hrano.Doc Hrano.Parser
+
+abbrev cc : UInt8 := PConst.commentChar
+
+/-- the body of a record extends the open record with exactly its entries and notes, in order -/
+theorem parse_body (fin : Bool) (rest : List Bytes) : ∀ (body : List BodyLine) (n : Node) (ln : Nat),
+    (∀ b ∈ body, b.WF cc) →
+    parseLines cc fin (some n) ln (body.map (BodyLine.render cc) ++ rest)
+      = parseLines cc fin (some { n with
+          elements := n.elements ++ body.filterMap BodyLine.entryOf
+          notes := n.notes ++ body.filterMap (BodyLine.noteOf cc) }) (ln + body.length) rest := by
+  intro body
+  induction body with
+  | nil => intro n ln _; simp
+  | cons b bs ih =>
+    intro n ln hw
+    have hb := hw b (List.mem_cons_self)
+    have hbs : ∀ b' ∈ bs, b'.WF cc := fun b' h => hw b' (List.mem_cons_of_mem _ h)
+    simp only [List.map_cons, List.cons_append]
+    rw [parseLines]
+    cases b with
+    | entry e =>
+      rw [show BodyLine.render cc (.entry e) = e.render from rfl, classify_entry e hb]
+      simp only
+      rw [ih _ (ln + 1) hbs]
+      simp only [List.filterMap_cons, BodyLine.entryOf, BodyLine.noteOf, List.append_assoc, List.singleton_append, List.length_cons]
+      congr 1; omega
+    | note ind t =>
+      rw [show BodyLine.render cc (.note ind t) = ind ++ cc :: t from rfl, classify_note ind t hb]
+      simp only
+      rw [ih _ (ln + 1) hbs]
+      simp only [List.filterMap_cons, BodyLine.entryOf, BodyLine.noteOf, List.append_assoc, List.singleton_append, List.length_cons]
+      congr 1; omega
+    | skip s =>
+      rw [show BodyLine.render cc (.skip s) = s.render cc from rfl, classify_skip s hb]
+      simp only
+      rw [ih _ (ln + 1) hbs]
+      simp only [List.filterMap_cons, BodyLine.entryOf, BodyLine.noteOf, List.length_cons]
+      congr 1; omega
+
+/-- comment and blank lines before the first heading produce nothing -/
+theorem parse_preamble (fin : Bool) (rest : List Bytes) : ∀ (pre : List SkipLine) (ln : Nat), (∀ s ∈ pre, s.WF) →
+    parseLines cc fin none ln (pre.map (SkipLine.render cc) ++ rest) = parseLines cc fin none (ln + pre.length) rest := by
+  intro pre
+  induction pre with
+  | nil => intro ln _; simp
+  | cons s ss ih =>
+    intro ln hw
+    simp only [List.map_cons, List.cons_append]
+    rw [parseLines, classify_skip s (hw s (List.mem_cons_self))]
+    simp only
+    rw [ih (ln + 1) (fun s' h => hw s' (List.mem_cons_of_mem _ h))]
+    simp only [List.length_cons]
+    congr 1; omega
+
+/-- the records of a file, with whatever record is still open -/
+theorem parse_records : ∀ (recs : List Record) (cur : Option Node) (ln : Nat), (∀ r ∈ recs, r.WF cc) →
+    parseLines cc true cur ln (recs.map (Record.lines cc)).flatten
+      = (cur.toList ++ recs.map (Record.node cc)).map Event.node := by
+  intro recs
+  induction recs with
+  | nil => intro cur ln _; cases cur <;> simp [parseLines, flush]
+  | cons r rs ih =>
+    intro cur ln hw
+    have hr := hw r (List.mem_cons_self)
+    simp only [List.map_cons, List.flatten_cons, Record.lines, List.cons_append]
+    rw [parseLines, classify_heading r.heading hr.1]
+    simp only
+    rw [parse_body true _ r.body _ (ln + 1) hr.2, ih _ _ (fun r' h => hw r' (List.mem_cons_of_mem _ h))]
+    cases cur <;> simp [flush, Record.node]
+
+/-- **Main theorem.**  A well-formed file, in any mix of layout variants, parses to exactly its records: one record
+    per heading in file order; under it every entry in order with its exact name and the value of its number;
+    comment lines, blank lines and notes never become entries; the last record is not lost. -/
+theorem parse_render (f : File) (hw : f.WF cc) :
+    parseLines cc true none 1 (f.lines cc) = (f.nodes cc).map Event.node := by
+  unfold File.lines File.nodes
+  rw [parse_preamble true _ f.preamble 1 hw.1, parse_records f.records none _ hw.2]
+  simp
+
+/-- layout does not matter: two well-formed files that say the same thing parse to the same records -/
+theorem layout_irrelevant (f g : File) (hf : f.WF cc) (hg : g.WF cc) (h : f.nodes cc = g.nodes cc) :
+    parseLines cc true none 1 (f.lines cc) = parseLines cc true none 1 (g.lines cc) := by
+  rw [parse_render f hf, parse_render g hg, h]
+
+/-- the last record is not lost (it is pushed after the last line) -/
+theorem last_record_kept (f : File) (hw : f.WF cc) (r : Record) (rs : List Record) (h : f.records = rs ++ [r]) :
+    (parseLines cc true none 1 (f.lines cc)).getLast? = some (Event.node (r.node cc)) := by
+  rw [parse_render f hw]
+  simp [File.nodes, h]
+
+/-- LF-terminated and CRLF-terminated lines are the same lines to the parser: the scanner drops one trailing CR -/
+theorem crlf_irrelevant (l : Bytes) (h : l.getLast? ≠ some 13) : Scanner.dropCR (l ++ [13]) = l ∧ Scanner.dropCR l = l := by
+  constructor
+  · simp [Scanner.dropCR]
+  · unfold Scanner.dropCR
+    cases hl : l.getLast? with
+    | none => rfl
+    | some x =>
+      by_cases hx : x = 13
+      · rw [hl, hx] at h; exact absurd rfl h
+      · split
+        · rename_i heq; exact absurd (Option.some.inj heq) hx
+        · rfl
+
+/-! non-vacuity: a file that uses every layout variant: comment, separator line, quoted heading with colon, heading
+    without colon, entries indented by blanks / tab / dash, quoted and unquoted, with and without colon, trailing
+    blanks, a note, a blank line inside a record -/
+def e1 : EntryLine := ⟨[32, 32], false, [97, 32, 98], true, [32], [49, 46, 53], (3 : Q) / 2, []⟩            -- `  a b: 1.5`
+def e2 : EntryLine := ⟨[9, 45, 32], true, [99, 47, 100], false, [9, 32], [45, 50], -2, [32, 32]⟩          -- `\t- "c/d"\t -2  `
+def demo : File :=
+  { preamble := [.comment [32, 120], .blank [45, 45, 45]]
+    records := [⟨⟨true, [114, 49], true, [32]⟩, [.entry e1, .note [32, 32] [32, 110, 58, 32, 118], .skip (.blank []), .entry e2]⟩,
+                ⟨⟨false, [114, 50], false, []⟩, []⟩] }
+
+example : parseLines 35 true none 1 (demo.lines 35)
+    = [.node ⟨[114, 49], [⟨[97, 32, 98], (3 : Q) / 2⟩, ⟨[99, 47, 100], -2⟩], [⟨[110], [118]⟩]⟩, .node ⟨[114, 50], [], []⟩] := by
+  decide +kernel
+
 end Hrano.C04
